@@ -140,7 +140,7 @@ def task_bounded_sequences(I, seed, k, n):
         decs = [qrdecode.decode(q.matrix) for q in seq]
         want = qrdecode.expected_payload(content, encoding=kw.get('encoding'))
         overflow = [i for i, d in enumerate(decs) if d.problems]
-        if overflow and f_overflow and 'version' in kw and 'symbol_count' not in kw and \
+        if f_overflow and 'version' in kw and 'symbol_count' not in kw and \
                 all(any(p.startswith('stream:') for p in decs[i].problems) for i in overflow) and _is_pinned_split(content, kw, decs):
             _probe(I, 'F-C08-chunk-overflow')
             I.ground_pass('C08.bounded.symbols_valid_or_pinned_chunk_overflow', 1, kind='bounded')
@@ -202,6 +202,7 @@ def _is_pinned_split(content, kw, decs):
     v = kw['version']
     cap = _iso.data_capacity_bits(v, kw.get('error', 'L') or 'L')
     from spec import modes as _modes
+    any_overflow = False
     for d, ch in zip(decs, chunks):
         if mode == 'byte':
             cnt = len(ch if isinstance(ch, bytes) else ch.encode(enc))
@@ -214,11 +215,15 @@ def _is_pinned_split(content, kw, decs):
             payload = _modes.payload_bits(mode, cnt)
         need = 20 + 4 + _iso.cci_len(mode, v) + payload
         ds = [s_ for s_ in d.segments if s_.is_data()]
-        if not d.problems:
-            if len(ds) != 1 or ds[0].char_count != cnt or ds[0].mode != mode:
+        fits = need <= cap and cnt < (1 << _iso.cci_len(mode, v))
+        if fits:
+            # this chunk fits: its symbol must be readable and carry exactly the chunk; anything else is not the known finding
+            if d.problems or len(ds) != 1 or ds[0].char_count != cnt or ds[0].mode != mode:
                 return False
-        elif need <= cap and cnt < (1 << _iso.cci_len(mode, v)):
-            return False        # this chunk fits: its symbol must be readable, the problem is something else
+        else:
+            any_overflow = True     # pinned deviation: surplus bits dropped (the reader sees a wrong count, a truncated stream or garbage)
+    if not any_overflow:
+        return False
     total = len(content) if mode != 'kanji' or isinstance(content, str) else len(content) // 2
     bits = {'numeric': 10 * (total // 3) + (4 if total % 3 == 1 else 7), 'alphanumeric': 11 * (total // 2) + 6 * (total % 2),
             'byte': 8 * total, 'kanji': 13 * total, 'hanzi': 13 * total}[mode]
